@@ -107,8 +107,10 @@ C02_Success(pre, post, s) ==
         dep == MaxOr0(DeployedRevs(pre.store)) IN
     /\ n \in Revs(post.store)
     /\ Match(newman, post.cluster)
+    \* dropped resources are deleted unless the LIVE object carried keep, in which case it is left untouched
     /\ dep # 0 => \A r \in (DOMAIN pre.store[dep].man) \ (DOMAIN newman) :
-                     IsAbsent(post.cluster[r]) \/ pre.cluster[r].pol = "keep"
+                     IF pre.cluster[r].pol = "keep" THEN Core(post.cluster[r]) = Core(pre.cluster[r])
+                     ELSE IsAbsent(post.cluster[r])
 
 \* objects outside the release's manifests and hooks are never touched (any step, any outcome)
 C02_Bystanders(preSt, before, after, chart) ==
@@ -174,7 +176,8 @@ CurrentRev(st) == IF DeployedRevs(st) # {} THEN MaxOf(DeployedRevs(st)) ELSE Max
 ToBeCreated(pre, u) ==
   CASE u.kind = "install" -> DOMAIN ChartMan(u.chart)
     [] u.kind = "upgrade" -> IF CurrentRev(pre.store) = 0 THEN {}
-                             ELSE (DOMAIN ChartMan(u.chart)) \ (DOMAIN pre.store[CurrentRev(pre.store)].man)
+                             ELSE LET cur == pre.store[CurrentRev(pre.store)].man  tgt == ChartMan(u.chart) IN
+                                  {r \in DOMAIN tgt : r \notin DOMAIN cur \/ ~SameKey(cur[r], tgt[r])}
     [] OTHER -> {}
 
 Conflict(pre, u) == \E r \in ToBeCreated(pre, u) : pre.cluster[r].own \notin {"absent", "me"}
